@@ -1059,7 +1059,7 @@ fn nex_check_row(got: &ExcelRow, row: u32, sub: u32) {
     assert_eq!(cell(19), format!("{:?}", ColumnData::String(r.s2.clone())), "row {row}/{sub}: second string");
 }
 
-//@unit props=C05 label=B tier=quick native=1 fn=exd::EXD::{from_existing,read_row,read_column},exh::EXH::from_existing bound="by execution: one 20-column schema holding every column type (two strings, all eight packed-bool bits of one byte), pages of 1..6 rows in ascending, descending and shuffled id order, 1..4 sub-rows per row, 2 pages, 3 languages; every stored row id and 6 absent ids"
+//@unit props=C05 label=B tier=quick native=1 fn=exd::EXD::{from_existing,read_row,read_column},exh::EXH::from_existing bound="by execution: one 20-column schema holding every column type (two strings, all eight packed-bool bits of one byte), pages of 1..6 rows in ascending, descending and shuffled id order, 1..4 sub-rows per row, 2 pages, 3 languages; every stored row id and 6 absent ids; one row of 6 sub-rows with a 0x4000-byte fixed-size region (sub-row offsets beyond 65535)"
 //@desc a header built from bytes parses to its columns, pages and languages; reading a stored row returns one record per sub-row whose 20 cells equal the stored values (big-endian integers, float bits, one-byte bool, each packed bit, both strings); an unknown row id yields nothing
 #[test]
 fn native_exd_files() {
@@ -1080,6 +1080,21 @@ fn native_exd_files() {
         }
         for absent in [4u32, 6, 8, 11, 999, 0x8000_0000] { if !ids.contains(&absent) { assert!(exd.read_row(&exh, absent).is_none(), "unknown row id {absent} yields nothing"); cases += 1; } }
     } }
+    // a wide fixed-size region (0x4000 bytes) with 6 sub-rows: sub-row i starts 6 + i * (0x4000 + 2) + 2 bytes into the row, beyond 65535 from i = 4 on
+    {
+        let d: u16 = 0x4000; let n: u32 = 6;
+        let exh = EXH::from_existing(&nex_exh(d, &[(0x7, 0), (0x5, d - 2)], &[(0, 10)], &[0])).expect("header parses");
+        let mut body: Vec<u8> = vec![];
+        for i in 0..n { body.extend_from_slice(&(i as u16).to_be_bytes()); let mut f = vec![0u8; d as usize]; f[0..4].copy_from_slice(&(0xA000_0000u32 + i).to_be_bytes()); f[d as usize - 2..].copy_from_slice(&(0xB000u16 + i as u16).to_be_bytes()); body.extend_from_slice(&f); }
+        let mut b = vec![]; b.extend_from_slice(b"EXDF"); b.extend_from_slice(&2u16.to_be_bytes()); b.extend_from_slice(&[0u8; 2]); b.extend_from_slice(&8u32.to_be_bytes()); b.extend_from_slice(&((body.len() + 6) as u32).to_be_bytes()); b.extend_from_slice(&[0u8; 16]);
+        b.extend_from_slice(&9u32.to_be_bytes()); b.extend_from_slice(&40u32.to_be_bytes());
+        b.extend_from_slice(&(body.len() as u32).to_be_bytes()); b.extend_from_slice(&(n as u16).to_be_bytes()); b.extend_from_slice(&body);
+        let exd = EXD::from_existing(&b).expect("page parses");
+        let got = exd.read_row(&exh, 9).expect("stored row");
+        assert_eq!(got.len() as u32, n, "one record per sub-row");
+        for (i, r) in got.iter().enumerate() { assert_eq!(format!("{:?}", r.data), format!("{:?}", vec![ColumnData::UInt32(0xA000_0000 + i as u32), ColumnData::UInt16(0xB000 + i as u16)]), "sub-row {i} of a row with a 0x4000-byte fixed region"); }
+        cases += 1;
+    }
     println!("NATIVE native_exd_files cases={cases}");
 }
 
